@@ -29,7 +29,7 @@ func TestVerifC03Race(t *testing.T) {
 	const check = "C03.race"
 	res := verifrt.NewResult(check)
 	res.Rule = "rounds of 8-48 real goroutines (race-detector build, Gosched/sleep jitter at every instrumented point): adders on 1-4 shared counters, a first open, growers (4 KB names => remaps), rotators (clock moved 8 days) run at once; unmapped regions are quarantined (PROT_NONE) and every worker runs with SetPanicOnFault. Oracle: no panic/fault; at quiescence persisted (sum over files, reference reader) + pending == increments, and nothing pending for counters while a file is open; the driver counts data-race reports. distinct = rounds; non-trivial = round had >= 1 mapping swap"
-	base := vtmp("c03r-")
+	base := vfVtmp("c03r-")
 	defer os.RemoveAll(base)
 	rounds := verifrt.Scale(25, 400)
 	verifrt.SetJitter(0.25)
@@ -85,7 +85,7 @@ func TestVerifC03Race(t *testing.T) {
 								kind = "stale-mapping-access"
 							}
 						}
-						faults.Store(name, fmt.Sprintf("%s|%s|%v\n%.1200s", kind, topFrame(string(debug.Stack())), r, debug.Stack()))
+						faults.Store(name, fmt.Sprintf("%s|%s|%v\n%.1200s", kind, vfTopFrame(string(debug.Stack())), r, debug.Stack()))
 					}
 				}()
 				fn()
